@@ -298,6 +298,20 @@ namespace vc
         }
     }
 
+    LogAlloc*& slog_target()
+    {
+        static LogAlloc* t = nullptr;
+        return t;
+    }
+    void* SLog::allocate_node(std::size_t size, std::size_t alignment)
+    {
+        return slog_target()->allocate_node(size, alignment);
+    }
+    void SLog::deallocate_node(void* p, std::size_t size, std::size_t alignment) noexcept
+    {
+        slog_target()->deallocate_node(p, size, alignment);
+    }
+
     void* LogAlloc::allocate_node(std::size_t size, std::size_t alignment)
     {
         return alloc('n', 1, size, alignment);
@@ -475,6 +489,7 @@ namespace vc
                 Ctx      cx;
                 cx.alloc     = &alloc;
                 cx.allocs[0] = &alloc;
+                slog_target() = &alloc;
                 cx.allocs[1] = &alloc2;
                 for (auto& c : x.cmds)
                 {
